@@ -52,6 +52,9 @@ func runC01(p *Prog, r *Report) {
 	if want("C01.10") {
 		ruleBaseLevel(p, r, "C01.10")
 	}
+	if want("C01.13") {
+		ruleDstOwnership(p, r, "C01.13")
+	}
 	if want("C01.12") {
 		ruleMemdbComparer(p, r, "C01.12")
 	}
